@@ -10,7 +10,14 @@
    Z_T     the vanishing polynomial of the non-exempt steps:  (x^n - 1) / prod_{last `exempt` steps s} (x - g^s)
    V_a,Z_a the polynomial through the asserted values on the steps an assertion names, and their vanishing polynomial
    Coefficients are assigned to the assertions in the canonical order (stride, first step, column).  The prover delivers H split
-   into columns:  H(x) = sum_j x^(j n) H_j(x).                                                              *)
+   into columns:  H(x) = sum_j x^(j n) H_j(x).
+
+   With an auxiliary segment (columns A_j, random elements r) the sums continue with the auxiliary transition constraints
+   (running sum:  A_j(g x) - (A_j(x) + r_j T_c(x));  running product:  A_j(g x) - A_j(x) (T_c(x) + r_j);  c = j mod width) over
+   Z_T, the auxiliary assertions (value r_j * prefix sum of T_c up to the step, or 1 for a product column; coefficients follow
+   those of the main assertions), and for a Lagrange kernel column L with random elements r'_1..r'_v (v = log2 n):
+       sum_{k=1..v} lct[k] * ( r'_{v-k+1} L(x) - (1 - r'_{v-k+1}) L(g^(2^(v-k)) x) ) / (x^(2^(k-1)) - 1)
+       + lcb * ( L(x) - prod_i (1 - r'_i) ) / (x - 1)                                                        *)
 EXTENDS ToyMath, Json, IOUtils, Naturals, FiniteSets
 
 Rec == ndJsonDeserialize(IOEnv.TRACE)
@@ -61,8 +68,39 @@ Boundary(k, x) ==
         Z  == ProdM(DOMAIN xs, LAMBDA j : SubM(x, xs[j]))
     IN  MulM(E.ccb[Rank(k)], DivM(SubM(TraceAt(a.col + 1, x), V), Z))
 
-H(x) == AddM(DivM(SumM(1..E.width, LAMBDA i : MulM(E.cct[i], Constraint(i, x))), ZT(x)),
-             SumM(DOMAIN E.asserts, LAMBDA k : Boundary(k, x)))
+\* ---- auxiliary segment ------------------------------------------------------------------------------------------
+NAux == Len(E.aux_degs)
+TracePts == [s \in 1..E.n |-> PowM(E.g, s - 1)]
+AuxAt(j, x) == LagrangeAt(TracePts, E.aux[j], x)
+RandOf(j) == IF Len(E.rands) = 0 THEN 1 ELSE E.rands[((j - 1) % Len(E.rands)) + 1]
+MainOf(j) == ((j - 1) % E.width) + 1
+AuxConstraint(j, x) ==
+    LET m == TraceAt(MainOf(j), x)  r == RandOf(j)  cur == AuxAt(j, x)  nxt == AuxAt(j, MulM(E.g, x))
+    IN  IF E.aux_degs[j] = 1 THEN SubM(nxt, AddM(cur, MulM(r, m))) ELSE SubM(nxt, MulM(cur, AddM(m, r)))
+\* value an auxiliary assertion claims for column j (1-based) at step s: r_j * (sum of the main column over steps 0..s-1), or 1
+PrefixSum(c, s) == FoldLeft(LAMBDA acc, i : AddM(acc, E.trace[c][i]), 0, [i \in 1..s |-> i])
+AuxValue(j, s) == IF E.aux_degs[j] = 1 THEN MulM(RandOf(j), PrefixSum(MainOf(j), s)) ELSE 1
+AuxRank(k) == Cardinality({m \in DOMAIN E.aux_asserts : LessKey(Key(E.aux_asserts[m]), Key(E.aux_asserts[k]))}) + 1
+AuxBoundary(k, x) ==
+    LET a  == E.aux_asserts[k]
+        st == StepsOfA(a)
+        xs == [j \in DOMAIN st |-> PowM(E.g, st[j])]
+        ys == [j \in DOMAIN st |-> AuxValue(a.col + 1, st[j])]
+        V  == LagrangeAt(xs, ys, x)
+        Z  == ProdM(DOMAIN xs, LAMBDA j : SubM(x, xs[j]))
+    IN  MulM(E.ccb[E.nmain_asserts + AuxRank(k)], DivM(SubM(AuxAt(a.col + 1, x), V), Z))
+LagAt(x) == AuxAt(NAux + 1, x)
+LagrangeTerms(x) ==
+    LET v == Len(E.lrands)  r == E.lrands
+    IN  AddM(SumM(1..v, LAMBDA k : MulM(E.lct[k],
+                     DivM(SubM(MulM(r[v - k + 1], LagAt(x)), MulM(SubM(1, r[v - k + 1]), LagAt(MulM(PowM(E.g, 2 ^ (v - k)), x)))),
+                          SubM(PowM(x, 2 ^ (k - 1)), 1)))),
+             MulM(E.lcb, DivM(SubM(LagAt(x), ProdM(1..v, LAMBDA i : SubM(1, r[i]))), SubM(x, 1))))
+
+H(x) == AddM(AddM(DivM(AddM(SumM(1..E.width, LAMBDA i : MulM(E.cct[i], Constraint(i, x))),
+                            SumM(1..NAux, LAMBDA j : MulM(E.cct[E.width + j], AuxConstraint(j, x)))), ZT(x)),
+                  AddM(SumM(DOMAIN E.asserts, LAMBDA k : Boundary(k, x)), SumM(DOMAIN E.aux_asserts, LAMBDA k : AuxBoundary(k, x)))),
+             IF E.lagrange THEN LagrangeTerms(x) ELSE 0)
 
 Comp == /\ E.ev = "comp"
         /\ \A pi \in DOMAIN E.points :
